@@ -164,7 +164,8 @@ structure Build where
   store : List Res := []
   found : List (Key × Found) := []
   multi : List Key := []
-  extra : List Scaffold := []       -- left-over input scaffolds appended by add_missing
+  extra : List (Scaffold × Option (Fragment × Option Gap)) := []
+      -- left-over input scaffolds appended by add_missing, each with its `input_predecessor`
   cuts : Int := 0
   nextOid : Nat
   joinGap : Option Gap
@@ -411,7 +412,11 @@ def cutFragments (b : Build) (fnd : Found) : R Build := do
   let (b, subs, _) ← ordered.foldlM (fun (acc : Build × List Fragment × Nat) sid => do
     let (b, subs, i) := acc
     let r := b.store.getD sid default
-    let (o, new) ← r.o.trimFragment f (i == 0) (i == last) b.nextOid
+    let ks := i == 0
+    let ke := i == last
+    -- a reverse-strand contig has its first base at the OverlapResult's end: flags swapped
+    let (ks, ke) := if f.strand = -1 then (ke, ks) else (ks, ke)
+    let (o, new) ← r.o.trimFragment f ks ke b.nextOid
     pure ({ b with store := setAt b.store sid { r with o := o }, nextOid := b.nextOid + 1 }, subs ++ [new], i + 1))
     (b, [], 0)
   if ¬ qcPasses f subs then throw .value
@@ -426,15 +431,23 @@ def cutRemaining (b : Build) : R Build := do
 
 /-! ### left-over input -/
 
+/-- `input_predecessor(scffld, i)`: walking back from row `i-1`, the first Fragment and the first Gap met before it -/
+def inputPredecessor (rows : List Row) (i : Nat) : Option (Fragment × Option Gap) :=
+  let rec go (gap : Option Gap) : List Row → Option (Fragment × Option Gap)
+    | [] => none
+    | .gap g :: r => go (match gap with | some g' => some g' | none => some g) r
+    | .frag f :: _ => some (f, gap)
+  go none (rows.take i).reverse
+
 /-- rows of the left-over scaffold built from one input scaffold -/
-def missingRows (b : Build) (rows : List Row) : R (List Row) := do
+def missingRows (b : Build) (rows : List Row) : R (List Row × Option Nat) := do
   let idxRows := (List.range rows.length).zip rows
-  let (out, _) ← idxRows.foldlM (fun (acc : List Row × Option Nat) (p : Nat × Row) => do
-    let (out, lastAdded) := acc
+  let (out, _, first) ← idxRows.foldlM (fun (acc : List Row × Option Nat × Option Nat) (p : Nat × Row) => do
+    let (out, lastAdded, first) := acc
     match p.2 with
-    | .gap _ => pure (out, lastAdded)
+    | .gap _ => pure (out, lastAdded, first)
     | .frag f =>
-      if dHas b.found f.keyTuple then pure (out, lastAdded)
+      if dHas b.found f.keyTuple then pure (out, lastAdded, first)
       else
         let out ←
           match lastAdded with
@@ -448,19 +461,20 @@ def missingRows (b : Build) (rows : List Row) : R (List Row) := do
                 | none => throw .attribute
             else pure out
           | none => pure out
-        pure (out ++ [Row.frag f], some p.1)) ([], none)
-  pure out
+        pure (out ++ [Row.frag f], some p.1, (match first with | some x => some x | none => some p.1))) ([], none, none)
+  pure (out, first)
 
 def addMissing (input : List Scaffold) (b : Build) : R Build :=
   input.foldlM (fun (b : Build) sc => do
-    let rows ← missingRows b sc.rows
+    let (rows, first) ← missingRows b sc.rows
     if rows.isEmpty then pure b
     else do
       let tags := ({ name := sc.name, rows := rows } : Scaffold).fragmentTags
       let n ← makeScaffoldName b.namer sc.name rows tags
       let tag := if n.targetTags ∧ ¬ sc.fragmentTags.contains sTarget then some sContaminant else none
       let new : Scaffold := { name := sc.name, rows := rows, rank := 3, tag := tag, haplotype := n.currentHaplotype }
-      pure { b with namer := n, extra := b.extra ++ [new] }) b
+      let pred := match first with | some i => inputPredecessor sc.rows i | none => none
+      pure { b with namer := n, extra := b.extra ++ [(new, pred)] }) b
 
 /-- `remap_to_input_assembly` -/
 def remapToInput (input ptx : List Scaffold) (prefix_ : Str) (joinGap : Option Gap) (err : Int) : R Build := do
@@ -476,26 +490,37 @@ def remapToInput (input ptx : List Scaffold) (prefix_ : Str) (joinGap : Option G
 
 /-! ### fusing, splitting into assemblies, chromosome naming -/
 
-/-- `scaffolds_fused_by_name`: insertion-ordered dict keyed by (haplotype, name) -/
+/-- `gap_before_leftover` -/
+def gapBeforeLeftover (joinGap : Option Gap) (built : List Row) (pred : Option (Fragment × Option Gap)) : Option Gap :=
+  match pred, built.reverse with
+  | some (prev, gap), Row.frag last :: _ =>
+    if last.name = prev.name ∧ last.strand = prev.strand ∧
+       (if prev.strand = -1 then last.start else last.stop) = (if prev.strand = -1 then prev.start else prev.stop)
+    then gap else joinGap
+  | _, _ => joinGap
+
+/-- `scaffolds_fused_by_name`: insertion-ordered dict keyed by (tag, haplotype, name) -/
 def fuseByName (b : Build) : List Scaffold :=
-  let step (acc : List ((Option Str × Str) × Scaffold)) (key : Option Str × Str) (proto : Scaffold)
-      (rows : List Row) (gap : Option Gap) :=
+  let step (acc : List ((Option Str × Option Str × Str) × Scaffold)) (key : Option Str × Option Str × Str) (proto : Scaffold)
+      (rows : List Row) (gap : List Row → Option Gap) :=
     match dGet? acc key with
-    | some s => dSet acc key { s with rows := Scaffold.appendRows s.rows rows gap }
-    | none => acc ++ [(key, { proto with rows := Scaffold.appendRows [] rows gap })]
+    | some s => dSet acc key { s with rows := Scaffold.appendRows s.rows rows (gap s.rows) }
+    | none => acc ++ [(key, { proto with rows := Scaffold.appendRows [] rows (gap []) })]
   let acc := b.store.foldl (fun acc r =>
     if ¬ r.added ∨ r.o.rows.isEmpty then acc
     else
       let o := r.o
-      step acc (o.haplotype, o.name)
+      step acc (o.tag, o.haplotype, o.name)
         { name := o.name, tag := o.tag, haplotype := o.haplotype, rank := o.rank,
           originalName := o.originalName, originalTags := o.originalTags }
-        o.toScaffoldRows b.joinGap) []
-  let acc := b.extra.foldl (fun acc s =>
+        o.toScaffoldRows (fun _ => b.joinGap)) []
+  let acc := b.extra.foldl (fun acc (e : Scaffold × Option (Fragment × Option Gap)) =>
+    let s := e.1
     if s.rows.isEmpty then acc
-    else step acc (s.haplotype, s.name)
+    else step acc (s.tag, s.haplotype, s.name)
       { name := s.name, tag := s.tag, haplotype := s.haplotype, rank := s.rank,
-        originalName := s.originalName, originalTags := s.originalTags } s.rows none) acc
+        originalName := s.originalName, originalTags := s.originalTags } s.rows
+      (fun built => gapBeforeLeftover b.joinGap built e.2)) acc
   acc.map (·.2)
 
 /-- `str.replace(old, new)` (all occurrences, left to right, `old` non-empty) -/
